@@ -46,6 +46,8 @@ def file_pass(rep, cases, info):
             i = info.get(c["id"])
             if not i or i["exp"]["accept"] is not True or i["exp"]["model"].get("t") != "obj":
                 continue
+            if 13 in c["s"]:
+                continue    # reading a file in text mode translates \r\n and \r: the parsed text is another one
             b = cache.get(c["g"], c["cfg"])
             if isinstance(b, Exception):
                 continue
@@ -106,7 +108,9 @@ def run(rep):
                 "every object: _tx_position, _tx_position_end, get_location line/col/nchar/filename against the "
                 "spans Peg!BuildNode derives from the first and last non-suppressed leaf. S->I: 'asg' and 'kinds' "
                 "universes. Non-trivial: accepted inputs with at least one object.")
-    rep.assumptions = ["spans are defined from non-suppressed leaves (DESIGN.md section 7)", "Peg!WellFormed fragment"]
+    rep.assumptions = ["spans are defined from non-suppressed leaves (DESIGN.md section 7)", "Peg!WellFormed fragment",
+                       "file loads are compared for inputs without carriage returns (text-mode reading translates them, "
+                       "so the parsed text is not the text written)"]
     P.judge_universe(rep, PID, "asg", 1, compare=D.strip_far)
     if not quick:
         P.judge_universe(rep, PID, "kinds", 2)
